@@ -23,6 +23,7 @@ Slot(n, d, r, data, a) == [t |-> "slot", n |-> n, d |-> d, r |-> r, data |-> dat
 Comp(c, kw, only, body, a) == [t |-> "comp", c |-> c, kw |-> kw, only |-> only, body |-> body, a |-> a]
 Fill(ne, dv, fv, a) == [t |-> "fill", ne |-> ne, dv |-> dv, fv |-> fv, a |-> a]
 For(x, xs, a) == [t |-> "for", x |-> x, xs |-> xs, a |-> a]
+El(id, a) == [t |-> "elem", id |-> id, a |-> a]
 Data(x, k, v, a, dflt) == [x |-> x, k |-> k, v |-> v, a |-> a, dflt |-> dflt]
 
 \* ---- the fixed component library ------------------------------------------
@@ -54,13 +55,32 @@ Lib ==
      \* c5: leaf with a required default slot; consumer with a default
      [data |-> << Data("z", "const", "c4z", "", ""), Data("inj", "inject", "", "p", "none") >>,
       tpl  |-> << T("L8"), Slot("a", TRUE, TRUE, <<>>, <<>>), Var("z"), [t |-> "fld", x |-> "inj", f |-> "f"] >>]
+     ,
+     \* ---- C14 library: root elements -------------------------------------------------
+     \* c6: two root elements, a slot nested INSIDE an element (its content is not a root)
+     [data |-> << Data("cid", "id", "", "", "") >>,
+      tpl  |-> << Var("cid"), El("A", << T("L9") >>),
+                  El("B", << Slot("a", FALSE, FALSE, <<>>, << El("C", <<>>) >>) >>) >>],
+     \* c7: a slot at depth 0: the content's elements (fill or default) are roots; text-only root
+     [data |-> << Data("cid", "id", "", "", "") >>,
+      tpl  |-> << Var("cid"), Slot("a", TRUE, FALSE, <<>>, << El("D", <<>>) >>), T("L10") >>],
+     \* c8: a component as root (chain): the shared root elements carry both ids
+     [data |-> << Data("cid", "id", "", "", "") >>,
+      tpl  |-> << Var("cid"), Comp(9, <<>>, FALSE, "none", <<>>) >>],
+     \* c9: element root with a nested component, plus roots produced in a loop
+     [data |-> << Data("cid", "id", "", "", ""), Data("ys", "clist", "r", "", "") >>,
+      tpl  |-> << Var("cid"), El("E", << Comp(10, <<>>, FALSE, "none", <<>>) >>),
+                  For("i", "ys", << El("F", <<>>) >>) >>],
+     \* c10: text-only component (no root element at all)
+     [data |-> << Data("cid", "id", "", "", "") >>,
+      tpl  |-> << Var("cid"), T("L11") >>]
   >>
 
 Ctx == << <<"x", Str("px")>>, <<"y", Str("py")>>, <<"xs", [k |-> "l", v |-> <<"i1", "i2">>]>>,
           <<"on", Str("1")>>, <<"off", Str("")>> >>
 
 \* which components the page may use
-CompSet == IF Alphabet = "provide" THEN {2, 4, 5} ELSE {1, 2, 3, 5}
+CompSet == CASE Alphabet = "provide" -> {2, 4, 5} [] Alphabet = "elems" -> {6, 7, 8, 9} [] OTHER -> {1, 2, 3, 5}
 
 \* ---- page construction ----------------------------------------------------
 VARIABLES stack, n
@@ -73,7 +93,8 @@ LeafTokens ==
   {T("t"), Var("x")} \cup {Comp(c, <<>>, FALSE, "none", <<>>) : c \in CompSet} \cup
   (CASE Alphabet = "slots" -> {[t |-> "fld", x |-> "sd", f |-> "k"], [t |-> "defref", x |-> "df"]}
      [] Alphabet = "scope" -> {Var("i"), Var("w"), Var("y"), Comp(2, << <<"x", V("i")>> >>, TRUE, "none", <<>>)}
-     [] Alphabet = "provide" -> {})
+     [] Alphabet = "provide" -> {}
+     [] Alphabet = "elems" -> {El("x", <<>>)})
 OpenTokens ==
   {Comp(c, <<>>, FALSE, b, <<>>) : c \in CompSet, b \in {"impl", "fills"}} \cup
   (CASE Alphabet = "slots" -> {[t |-> "if", x |-> "on", a |-> <<>>, b |-> <<>>], For("i", "xs", <<>>)}
@@ -85,7 +106,8 @@ OpenTokens ==
           {[t |-> "provide", key |-> "p", kw |-> << <<"f", C("pv1")>> >>, a |-> <<>>],
            [t |-> "provide", key |-> "p", kw |-> << <<"f", V("x")>>, <<"h", C("ph")>> >>, a |-> <<>>],
            [t |-> "provide", key |-> "q", kw |-> << <<"f", C("qv")>> >>, a |-> <<>>],
-           For("i", "xs", <<>>)})
+           For("i", "xs", <<>>)}
+     [] Alphabet = "elems" -> {El("y", <<>>), For("i", "xs", <<>>)})
 FillTokens ==
   {Fill(C(s), "", "", <<>>) : s \in {"a", "b", "default"}} \cup
   (CASE Alphabet = "slots" -> {Fill(C("a"), "sd", "df", <<>>)}
@@ -198,5 +220,5 @@ Export ==
   Complete /\ HasComp(stack[1].kids, 1) =>
     LET r == Run(Prog(Mode, <<>>)) IN
     Serialize(ToJson([page |-> stack[1].kids, mode |-> Mode, out |-> r.out, err |-> r.err, errs |-> r.errs,
-                      zone |-> r.zone, insts |-> r.insts]) \o "\n", IOEnv.OUT, Opts).exitValue = 0
+                      zone |-> r.zone, insts |-> r.insts, elems |-> r.elems, marks |-> r.marks]) \o "\n", IOEnv.OUT, Opts).exitValue = 0
 =============================================================================
